@@ -19,6 +19,9 @@ rc=0
 run_target() { /verif/.cache/target/debug/translator "$1" --repo "${KYRO_REPO:-/repo}" --out /verif/coq/gen --report-dir /verif/.cache/gen || { r=$?; [ "$r" -gt "$rc" ] && rc=$r; }; }
 run_target config      # C18: KyroDbConfig::validate -> Config_gen.v
 run_target search_k    # C06: hnsw_backend::compute_search_k -> SearchK_gen.v
+run_target token_bucket      # C19: rate_limiter::TokenBucket::{new,refill,try_consume,refund_one,available_tokens} -> Bucket_gen.v
+run_target tenant_id_mapper  # C10: kyrodb_server TenantIdMapper::{to_global_doc_id,is_tenant_doc_id,to_local_doc_id} -> TenantId_gen.v
+run_target ordered_f64       # C11: hnsw_backend::OrderedF64::from_f64 -> OrderedF64_gen.v
 ( cd /verif/harness && exec 9>/verif/.cache/cargo.lock && flock 9 && cargo build --offline -q -p kvh-xl15 ) && { /verif/.cache/target/debug/xl15 --repo "${KYRO_REPO:-/repo}" --out /verif/coq/gen --report-dir /verif/.cache/gen || { r=$?; [ "$r" -gt "$rc" ] && rc=$r; }; } || { [ "$rc" -lt 1 ] && rc=1; }   # C15: api_validation validators + calculate_oversampling_factor -> Validators_gen.v (harness/p/xl15)
 ( cd /verif/harness && exec 9>/verif/.cache/cargo.lock && flock 9 && cargo build --offline -q -p kvh-xl17 ) && { /verif/.cache/target/debug/xl17 all --repo "${KYRO_REPO:-/repo}" --out /verif/coq/gen --report-dir /verif/.cache/gen || { r=$?; [ "$r" -gt "$rc" ] && rc=$r; }; } || { [ "$rc" -lt 1 ] && rc=1; }   # C17: simd.rs kernels -> Simd_gen.v, ann_backend.rs index formulas -> Packed_gen.v, unsafe call-site guards -> Guards_gen.v (harness/p/xl17)
 exit $rc
